@@ -196,13 +196,14 @@ def displacement_cases(draw):
 # ----------------------------------------------------------------------------- invariance
 
 _tmode = st.sampled_from(['origin', 'wrap', 'both'])
+_perm2 = st.one_of(st.just(0), st.integers(1, 2 ** 31), st.integers(1, 2 ** 31), st.integers(1, 2 ** 31), st.integers(1, 2 ** 31))
 
 
 @st.composite
 def invariance_cases(draw):
     kind = draw(_cfg)
     c = {'xtal': draw(CRYSTALS), 'shells': draw(SHELLS), 'config': kind,
-         'perm2': draw(_perm), 'tmode': draw(_tmode),
+         'perm2': draw(_perm2), 'tmode': draw(_tmode),
          't2': draw(_t2),
          'w2': draw(_w2),
          'theta': draw(_theta), 'ddref': draw(_ref01)}
